@@ -319,7 +319,8 @@ def run(ctx):
         "both sides are run on exact-rational operand patterns inside the common domain of the identity (moderate logits for the sigmoid/BCE pair and for log / softmax: the composition log(softmax(x)) underflows for widely separated logits where the fused form does not)",
         "pooling identity through unfold needs pad value -inf for max pooling (the library's own pad_value argument)"])
     rep.rule = "every configuration TLC enumerates in Identities.tla (spec-level invariant + differential replay) and every case of the loss/softmax/pool2d families for the transcendental and pooling pairs"
-    consts = dict(Family="id", MaxBasis=4, WithGrad=False, Sizes={1, 2, 3}, MaxRank=2 if q else 3,
+    # (thorough: rank 3 with sizes {1, 2}; rank 3 with size 3 overflows TLC's 32-bit integers in the exact products)
+    consts = dict(Family="id", MaxBasis=4, WithGrad=False, Sizes={1, 2, 3} if q else {1, 2}, MaxRank=2 if q else 3,
                   Axis2Set=CC.nn_consts(q)["Axis2Set"], NCSet=CC.nn_consts(q)["NCSet"])
     w, cfg = tlc.make_mc("Identities", consts, invariants=["IdentityHolds", "Emit"])
     res = tlc.run_tlc("Identities", cfg, workers=1, wrapper=w, timeout=6000)
